@@ -7,7 +7,99 @@ COMMON_ASSUMPTIONS = [
     "harness generators, reference models and comparison code are trusted",
 ]
 
+PROG = ("Typed random ChiaDialect programs (grammar over all operators, env paths incl. leading-zero paths, ((X) . raw) forms, "
+        "recursion templates, softfork guards with measured exact costs and wrong/malformed ones, unknown opcodes, structural mutations) ")
+
 PROPS = {
+    "C02": {
+        "variants": REL,
+        "budget_s": (30, 1500),
+        "min_nontrivial": {"quick": 500, "thorough": 5000},
+        "must_observe": ["exhaustive_budget_sweeps", "exempt_guard_entered"],
+        "rule": PROG + "x random flag sets, plus directed programs whose last operation or an operator-internal cost check crosses the budget. "
+                "Each program is run at budget 0 (cost C) and then at {C, C+1, 2C, u64::MAX, random>=C} (must be identical) and {C-1, C-2, C/2, 1, random<C} "
+                "(must be CostExceeded); every budget 1..C+2 exhaustively when C<=4000; when the GuardEnter hook reports a cost-exempt guard the smallest "
+                "succeeding budget is located by bisection and monotonicity asserted around it. Non-trivial: succeeded at 0 with C>=100 and >=6 budgets swept.",
+        "assumptions": COMMON_ASSUMPTIONS + ["the GuardEnter hook's `exempt` field decides whether the minimal budget may exceed C"],
+    },
+    "C03": {
+        "variants": REL,
+        "budget_s": (30, 1500),
+        "min_nontrivial": {"quick": 500, "thorough": 5000},
+        "must_observe": ["variant_reencoded", "variant_history", "history_failed_run_with_validated_points"],
+        "rule": PROG + "and directed operator programs over an env of non-canonical/boundary atoms. Baseline = fresh allocator, new_atom storage. Variants: every atom "
+                "re-encoded as forced-heap / substring view / concat result (incl. opcode, keyword, path and terminator atoms and the zero-length heap atom); allocator "
+                "pre-populated with random nodes, earlier successful and failed runs, runs that validated BLS points, add_validated_g1/g2, checkpoints; re-runs in the "
+                "same allocator; plain repeats. Result tree hash, cost and error variant+message must equal the baseline (limit errors excluded). Non-trivial: >=1 variant compared "
+                "and the run got past the first path lookup.",
+        "assumptions": COMMON_ASSUMPTIONS,
+    },
+    "C06": {
+        "variants": REL,
+        "budget_s": (25, 1200),
+        "min_nontrivial": {"quick": 2000, "thorough": 20000},
+        "rule": "Direct calls of op_div/op_divmod/op_mod/op_modpow with generated argument lists (0-5 args, zero in both encodings, negatives, redundant leading 0x00/0xff, "
+                "operands up to 4000 bytes, pairs at each position, improper tails, all atom representations) under random flag sets F vs F|MALACHITE and budgets, plus typed programs "
+                "containing these operators through run_program. Result bytes, cost and error kind must agree. Non-trivial: the call got past argument parsing.",
+        "assumptions": COMMON_ASSUMPTIONS,
+    },
+    "C07": {
+        "variants": REL,
+        "budget_s": (25, 1200),
+        "min_nontrivial": {"quick": 2000, "thorough": 20000},
+        "must_observe": ["restriction_turned_success_into_failure"],
+        "rule": PROG + "and directed programs at the LIMITS/DISABLE_OP/CANONICAL_INTS/LIMIT_SOFTFORK thresholds. For random base F and restriction subset R (single flags, subsets, all of MEMPOOL_MODE; "
+                "LIMIT_HEAP mirrored by a 500,000,000-byte allocator as the wheel does): if F|R succeeds then F must succeed with identical result and cost; if F succeeds then F|RELAXED_BLS must too. "
+                "Non-trivial: the restricted run succeeded.",
+        "assumptions": COMMON_ASSUMPTIONS,
+    },
+    "C08": {
+        "variants": REL,
+        "budget_s": (30, 1500),
+        "min_nontrivial": {"quick": 500, "thorough": 5000},
+        "must_observe": ["guards_entered_in_successful_aware_runs", "successful_runs_with_4byte_secp_opcode"],
+        "rule": PROG + "(softfork profile: guards for ext 0/1 with exact measured declared cost, nested/sequential/malformed guards, unknown extensions, valid and corrupted secp triples behind the 4-byte opcodes) "
+                "run on ChiaDialect(F) and on a harness HidingDialect(F) that maps every extension to Default and routes the two 4-byte secp opcodes to op_unknown; F non-strict without NEW_COST_MODEL. "
+                "When the aware run succeeds the hiding run must give the same result, cost and atom/pair/heap counts. Non-trivial: aware run succeeded and entered >=1 guard or contains a 4-byte secp opcode.",
+        "assumptions": COMMON_ASSUMPTIONS + ["HidingDialect (harness) is the model of an extension-unaware node"],
+    },
+    "C11": {
+        "variants": REL,
+        "budget_s": (25, 1200),
+        "min_nontrivial": {"quick": 2000, "thorough": 20000},
+        "rule": PROG + "and direct calls of every ChiaDialect operator on signature-aware argument lists, each under F and F|NEW_COST_MODEL. When both succeed the result trees must be identical. "
+                "Non-trivial: both succeed and the costs differ.",
+        "assumptions": COMMON_ASSUMPTIONS,
+    },
+    "C25": {
+        "variants": {"quick": ["rel", "dbg", "asan"], "thorough": ["rel", "dbg", "asan", "miri"]},
+        "budget_s": (25, 1200),
+        "total": True,
+        "min_nontrivial": {"quick": 5000, "thorough": 50000},
+        "rule": "Untyped random trees as programs, typed programs mutated 1-3 times, typed programs with big atoms, x random flag sets x budgets {0,1,10,1e4,1.1e7,1.1e10}; plus every ChiaDialect operator called "
+                "directly on signature-aware, perturbed and completely arbitrary argument trees (sizes up to MBs). Oracle: catch_unwind + no EvalErr::InternalError; the same workload runs in release, "
+                "debug-assertion/overflow-check and AddressSanitizer builds (a dying shard process is a violation) and, thorough tier, a small no-BLS subset under Miri. Non-trivial: run got past the first path lookup / operator was reached.",
+        "assumptions": COMMON_ASSUMPTIONS + ["hangs are reported as inconclusive (watchdog), never as violations"],
+    },
+    "C30": {
+        "variants": REL,
+        "budget_s": (25, 1200),
+        "min_nontrivial": {"quick": 2000, "thorough": 20000},
+        "rule": PROG + "without guards, restricted to the vocabulary common to both dialects (programs/envs containing 36, 48, 62, 63 or a 4-byte secp opcode anywhere are skipped), run on ChiaDialect(F) and on "
+                "RuntimeDialect(standard table: the 44 names of f_table.rs at their ChiaDialect opcodes, secp only when ENABLE_SECP_OPS; quote 1, apply 2) with the same effective flags; F without ENABLE_GC/DISABLE_OP/"
+                "ENABLE_KECCAK_OPS_OUTSIDE_GUARD/ENABLE_SHA256_TREE. Result, cost and error variant must agree. Non-trivial: run succeeded or failed inside an operator.",
+        "assumptions": COMMON_ASSUMPTIONS + ["the 'standard table' is the harness's mapping of f_table.rs names to ChiaDialect opcodes"],
+    },
+    "C31": {
+        "variants": REL,
+        "budget_s": (25, 1200),
+        "min_nontrivial": {"quick": 500, "thorough": 5000},
+        "must_observe": ["guards_completed_exempt", "guards_completed_exact_cost", "depth_boundary_cases"],
+        "rule": "Guard towers of depth 1..25 built bottom-up with measured exact costs (5 inner bodies x {old, new model, GC} x LIMIT_SOFTFORK on/off: success expected iff not (LIMIT_SOFTFORK and depth>20)) and typed random programs "
+                "containing guards under random flag sets. An online checker consumes the GuardEnter/GuardExit hook events of every run with a stack of open guards and asserts: counts at exit == counts at entry, result nil, "
+                "consumed cost == declared unless cost-exempt. Non-trivial: >=1 guard completed.",
+        "assumptions": COMMON_ASSUMPTIONS + ["GuardEnter/GuardExit hook events (verif-hooks) faithfully report the allocator counters at guard entry and exit"],
+    },
     "C04": {
         "variants": REL,
         "budget_s": (60, 1500),
